@@ -39,6 +39,8 @@ enum E {
     Cast(Ty, Box<E>, bool),
     /// `match Option::Some(e) { Some(x) => x <op> k, None => 0 }`
     MatchSome(&'static str, Box<E>, Box<E>),
+    /// `{ let (dq, dr) = DivRem::div_rem(e, <non-zero literal leaf>); dq | dr }`
+    DivRem(bool, Box<E>, Box<E>),
 }
 
 #[derive(Clone, Debug)]
@@ -91,6 +93,18 @@ impl Gen<'_> {
                 let use_into = widening && self.rng.bool();
                 E::Cast(u, Box::new(self.expr(u, depth - 1)), use_into)
             }
+            11 if t.kind != TyKind::Felt && self.rng.bool() => {
+                // The divisor is a literal (typed `NonZero<T>` by the compiler), never zero.
+                let a = self.expr(t, depth - 1);
+                let mut b = self.lit(t);
+                if let E::Lit(_, v, i) = &mut b {
+                    if v == &BigInt::from(0) {
+                        *v = BigInt::from(if t.kind == TyKind::Signed && self.rng.bool() { -3 } else { 3 });
+                        self.leaves[*i].1 = v.clone();
+                    }
+                }
+                E::DivRem(self.rng.bool(), Box::new(a), Box::new(b))
+            }
             _ => E::MatchSome(*self.rng.pick(arith), Box::new(self.expr(t, depth - 1)), Box::new(self.expr(t, depth - 1))),
         }
     }
@@ -130,6 +144,15 @@ fn render(e: &E, as_params: bool) -> String {
         E::Call(a, b) => format!("cf({}, {})", r(a), r(b)),
         E::Cast(_, a, into) => if *into { format!("({}).into()", r(a)) } else { format!("({}).try_into().unwrap()", r(a)) },
         E::MatchSome(op, a, b) => format!("(match Option::Some({}) {{ Option::Some(mx) => mx {op} {}, Option::None => {} }})", r(a), r(b), r(b)),
+        E::DivRem(first, a, b) => {
+            // As a constant the divisor is an untyped literal; at run time it is converted.
+            let divisor = match (&**b, as_params) {
+                (E::Lit(_, _, i), true) => format!("(x{i}).try_into().unwrap()"),
+                (E::Lit(_, v, _), false) => format!("{v}"),
+                _ => unreachable!(),
+            };
+            format!("{{ let (dq, dr) = DivRem::div_rem({}, {divisor}); {} }}", r(a), if *first { "{ let _k = dr; dq }" } else { "{ let _k = dq; dr }" })
+        }
     }
 }
 
@@ -197,6 +220,10 @@ fn forms(e: &E, out: &mut BTreeSet<&'static str>) {
             out.insert("match-enum");
             forms(a, out);
             forms(b, out);
+        }
+        E::DivRem(_, a, _) => {
+            out.insert("div_rem-call");
+            forms(a, out);
         }
     }
 }
